@@ -233,17 +233,21 @@ func (blobCache *BlobCache) Consume(deps map[string]interface{}) (map[string]int
 				blobCache.cache[change.From.TreeEntry.Hash]
 			if !exists {
 				cache[change.From.TreeEntry.Hash] = &CachedBlob{}
-				blob, err = blobCache.getBlob(&change.From, commit.File)
-				if err != nil {
-					blobCache.l.Errorf("file from %s: %v\n", change.From.Name, err)
+				// do not lose the error of the "to" side
+				blobFrom, errFrom := blobCache.getBlob(&change.From, commit.File)
+				if errFrom != nil {
+					blobCache.l.Errorf("file from %s: %v\n", change.From.Name, errFrom)
 				} else {
-					cb := &CachedBlob{Blob: *blob}
-					err = cb.Cache()
-					if err == nil {
+					cb := &CachedBlob{Blob: *blobFrom}
+					errFrom = cb.Cache()
+					if errFrom == nil {
 						cache[change.From.TreeEntry.Hash] = cb
 					} else {
-						blobCache.l.Errorf("file from %s: %v\n", change.From.Name, err)
+						blobCache.l.Errorf("file from %s: %v\n", change.From.Name, errFrom)
 					}
+				}
+				if err == nil {
+					err = errFrom
 				}
 			}
 		}
